@@ -197,6 +197,12 @@ def twin_runs(ctx, rng, n, sl):
         try:
             sa, sb = R.plain_run(a), R.plain_run(b)
         except Exception as e:
+            from ..common import is_env_crash
+
+            if is_env_crash(e):
+                sl.skipped += 1
+                sl.count("skipped:third-party-library-raised:" + type(e).__name__)
+                continue
             sl.violations.append({"signature": "C13/run-crashed", "detail": f"{type(e).__name__}: {e}", "replay": {"spec": spec}})
             continue
         sl.cases += 1
